@@ -495,6 +495,9 @@ def run(chk):
         "in class Circuit are enumerated against an allow-table; a syntax-directed ordering walk checks that no explicit-raise-capable point follows an edge-adding point."
     )
     chk.assume("networkx add_edges_from / add_node / update behave as documented; implicit exceptions (KeyError from a missing node in set_output etc.) are outside the ordering rule")
+    from ..structural import vocabulary_rule
+
+    vocabulary_rule(chk, repo, "C07.S.vocabulary", [(FILE, "Circuit.connect"), (FILE, "Circuit.add"), (FILE, "Circuit.set_type"), (FILE, "Circuit.add_blackbox"), (FILE, "Circuit.fill_blackbox"), (FILE, "Circuit.add_subcircuit")])
     check_connect(chk, repo, sup)
     check_add(chk, repo, sup)
     check_uid(chk, repo)
